@@ -17,12 +17,16 @@ all (recorded known finding): when the hole is one layer thin in one direction a
 unit cells wide in the two others — `Lx = 3 ∧ Ly ≥ 6 ∧ Lz ≥ 6`, or `Ly = 4 ∧ Lx ≥ 5 ∧ Lz ≥ 6`, or
 `Lz = 4 ∧ Lx ≥ 5 ∧ Ly ≥ 6` — the rank is smaller (by `⌈ab/2⌉` with `a, b` the two wide hole
 dimensions minus one, measured on `Lx ≤ 7`, `Ly, Lz ≤ 9`): the code then encodes additional qubits
-that the class does not declare (`thin_hole_rank_deficient` below is a kernel-checked instance of the
-smallest case, `(3, 6, 6)`).  The rank clause is therefore stated for instances only
+that the class does not declare.  PROVED for every size of the three thin families
+(`thin_hole_family_x / _y / _z`: an undeclared second logical pair, hence rank `≤ n − 2`; the smallest
+case `(3, 6, 6)` also as the instance `thin_hole_rank_deficient`); that all OTHER sizes of the family
+have rank `n − k` is measured (every size with `Lx ≤ 7`, `Ly, Lz ≤ 9`, `n ≤ 900`), not proved.  The rank clause is therefore stated for instances only
 (`Properties/C01.lean`, `valid_HollowRhombicCode_partial`: every size of the family with
 `L_i ≤ 4`), not for all sizes.
 -/
-import PanqecVerif.Proofs.LatHollowRhombicCodeDef
+import PanqecVerif.Proofs.LatHollowRhombicCodeThinA
+import PanqecVerif.Proofs.LatHollowRhombicCodeThinB
+import PanqecVerif.Proofs.LatHollowRhombicCodeThinC
 
 namespace Panqec.C01HollowRhombicCode
 open Panqec.HollowRhombicCode Panqec.Color
@@ -188,6 +192,46 @@ theorem second_logical_pair : lat2.WF ∧ lat2.CommPair ∧ lat2.logX.length = 2
     lat2.stabs = (lattice 3 6 6).stabs ∧ lat2.qubits = (lattice 3 6 6).qubits :=
   ⟨lat2_wf, lat2_commPair, by rw [lat2_logX]; rfl, rfl, rfl⟩
 
+
+/-- the statement "not a valid `[[n, 1]]` code although commutation and pairing hold": every
+    independent family of generators has at most `n − 2` members -/
+def RankDeficient (l : Lattice) : Prop :=
+  l.CommPair ∧ (∀ r, HasRank (2 * l.toCodeData.n) l.rowsH r → r + 2 ≤ l.toCodeData.n) ∧
+  ¬ ValidCodeL l.toCodeData.n 1 l.rowsH l.rowsX l.rowsZ
+
+/-- commutation and pairing with a rank bound `n − 2` give `RankDeficient`: the rank clause
+    `rank = n − 1` of `ValidCodeL n 1` cannot hold -/
+theorem rankDeficient_of {l : Lattice} (hc : l.CommPair)
+    (h : ∀ r, HasRank (2 * l.qubits.length) l.rowsH r → r + 2 ≤ l.qubits.length) : RankDeficient l := by
+  refine ⟨hc, h, ?_⟩
+  intro hv
+  have := h _ hv.rank
+  have e : l.toCodeData.n = l.qubits.length := rfl
+  omega
+
+/-- NEGATIVE RESULT FOR A WHOLE FAMILY (recorded known finding): for EVERY `Ly, Lz ≥ 6` the class
+    `HollowRhombicCode(3, Ly, Lz)` — hole one layer thin in `x` — is not a valid `[[n, 1]]` code: the
+    plaquette `X2 = {(2,5,4), (2,5,6), (2,4,5), (2,6,5)}` next to the hole and the operator
+    `Z2` of weight 6 form an undeclared second logical pair -/
+theorem thin_hole_family_x (Ly Lz : Nat) (hy : 6 ≤ Ly) (hz : 6 ≤ Lz) :
+    Family 3 Ly Lz ∧ RankDeficient (lattice 3 Ly Lz) :=
+  ⟨⟨by decide, by omega, by omega⟩,
+    rankDeficient_of (commPair 3 Ly Lz ⟨by decide, by omega, by omega⟩) (ThinA.rank_le hy hz)⟩
+
+/-- the same for every `Lx ≥ 5`, `Lz ≥ 6` with `Ly = 4` (hole one layer thin in `y`; plaquette
+    `{(5,2,4), (5,2,6), (4,2,5), (6,2,5)}`) -/
+theorem thin_hole_family_y (Lx Lz : Nat) (hx : 5 ≤ Lx) (hz : 6 ≤ Lz) :
+    Family Lx 4 Lz ∧ RankDeficient (lattice Lx 4 Lz) :=
+  ⟨⟨by omega, by decide, by omega⟩,
+    rankDeficient_of (commPair Lx 4 Lz ⟨by omega, by decide, by omega⟩) (ThinB.rank_le hx hz)⟩
+
+/-- the same for every `Lx ≥ 5`, `Ly ≥ 6` with `Lz = 4` (hole one layer thin in `z`; plaquette
+    `{(5,4,2), (5,6,2), (4,5,2), (6,5,2)}`) -/
+theorem thin_hole_family_z (Lx Ly : Nat) (hx : 5 ≤ Lx) (hy : 6 ≤ Ly) :
+    Family Lx Ly 4 ∧ RankDeficient (lattice Lx Ly 4) :=
+  ⟨⟨by omega, by omega, by decide⟩,
+    rankDeficient_of (commPair Lx Ly 4 ⟨by omega, by omega, by decide⟩) (ThinC.rank_le hx hy)⟩
+
 /-! ### non-vacuity -/
 
 example : Family 2 2 3 := by decide
@@ -202,6 +246,8 @@ example : getDeformation "Checkerboard XZZX" [2, 0, 1] = DeformResult.map PauliM
 example : getDeformation "Checkerboard XZZX" [1, 0, 0] = DeformResult.map PauliMap.id := by decide
 example : getDeformation "Checkerboard XZZX" [1, 1, 1] = DeformResult.valueError := by decide
 example : getDeformation "XZZX" [1, 0, 0] = DeformResult.valueError := by decide
+example : RankDeficient (lattice 3 7 9) := (thin_hole_family_x 7 9 (by decide) (by decide)).2
+example : RankDeficient (lattice 6 4 6) := (thin_hole_family_y 6 6 (by decide) (by decide)).2
 set_option maxRecDepth 100000 in
 example : (lattice 2 2 3).getStab [0, 2, 0, 0] = [([3, 0, 0], .Z), ([2, 1, 0], .Z)] := by
   decide
